@@ -4,7 +4,7 @@
 use crate::transcript::{Rec, Transcript, Val};
 use multiboot2_common::DynSizedStructure;
 use multiboot2_header::*;
-use std::panic::{catch_unwind, AssertUnwindSafe};
+use crate::panics::catch;
 
 type Generic = DynSizedStructure<HeaderTagHeader>;
 
@@ -18,10 +18,6 @@ impl Default for HdrOpts {
     fn default() -> Self {
         Self { debug: true, max_steps: 1 << 16 }
     }
-}
-
-fn catch<R>(f: impl FnOnce() -> R) -> Option<R> {
-    catch_unwind(AssertUnwindSafe(f)).ok()
 }
 
 macro_rules! u {
